@@ -20,6 +20,8 @@ type negoCase struct {
 	Registered []string `json:"registered"`
 	Def        string   `json:"def"`
 	Accs       []string `json:"accs"`
+	// Accs2[i] != "": the request carries a SECOND Accept header field with that value
+	Accs2 []string `json:"accs2"`
 }
 
 type negoPlan struct {
@@ -53,7 +55,11 @@ func codecOf(ct string) string {
 func runNegoCase(tw *traceWriter, c negoCase, registered []string, reps int) {
 	restful.DefaultResponseContentType(c.Def)
 	defer restful.DefaultResponseContentType("")
-	for _, acc := range c.Accs {
+	for ai, acc := range c.Accs {
+		acc2 := ""
+		if ai < len(c.Accs2) {
+			acc2 = c.Accs2[ai]
+		}
 		ran := 0
 		ws := new(restful.WebService).Path("/n")
 		ws.Route(ws.GET("/e").Produces(c.Produces...).To(func(req *restful.Request, resp *restful.Response) {
@@ -69,7 +75,7 @@ func runNegoCase(tw *traceWriter, c negoCase, registered []string, reps int) {
 		totalRan := 0
 		for i := 0; i < reps; i++ {
 			ran = 0
-			hr, err := buildRequest("GET", "/n/e", [][2]string{{"Accept", acc}}, nil, false)
+			hr, err := buildRequest("GET", "/n/e", [][2]string{{"Accept", acc}, {"Accept", acc2}}, nil, false)
 			if err != nil {
 				break
 			}
@@ -123,7 +129,7 @@ func runNegoCase(tw *traceWriter, c negoCase, registered []string, reps int) {
 			r = 1
 		}
 		tw.emit(map[string]interface{}{"e": "nego", "produces": c.Produces, "registered": registered, "def": c.Def,
-			"acc": acc, "ran": r, "sts": stl, "cts": ctl, "dec": dec, "panic": panicked})
+			"acc": acc, "acc2": acc2, "ran": r, "sts": stl, "cts": ctl, "dec": dec, "panic": panicked})
 	}
 }
 
@@ -131,6 +137,9 @@ func randomAccept(r *rand.Rand) string {
 	medias := []string{restful.MIME_JSON, restful.MIME_XML, mimeVnd, mimeCustom, "*/*", "text/plain", "application/*", "text/html", "image/png", "text/*"}
 	qs := []string{"", "", "0", "0.1", "0.5", "0.8", "1", "1.0", "0.333", "0.50"}
 	n := 1 + r.Intn(5)
+	if r.Intn(12) == 0 {
+		n = 13 + r.Intn(8) // long headers (sorting algorithms change behaviour with length)
+	}
 	parts := []string{}
 	for i := 0; i < n; i++ {
 		p := pick(r, medias)
@@ -195,6 +204,12 @@ func runNego(planPath, outPath string, seed int64) {
 		}
 		if r.Intn(10) == 0 {
 			c.Accs = append(c.Accs, "")
+		}
+		c.Accs2 = make([]string, len(c.Accs))
+		if r.Intn(5) == 0 {
+			// the ranges spread over two header fields
+			c.Accs2[0] = pick(r, c.Produces)
+			c.Accs[0] = pick(r, []string{"text/html", "image/png", "text/plain;q=0.9"})
 		}
 		cases = append(cases, c)
 	}
